@@ -7,6 +7,12 @@ Streams
   hist-mono    generated projects + mutation histories, every timestamp strictly increasing
   hist-adv     same, with equal / older / not-after-pickle file mtimes and unchanged directory mtimes
   witness      the three refutation witnesses of Props/C09.v replayed on the implementation
+  hist-stub    (round 2, ORACLE ONLY - not covered by the Coq model) stubs of sub-modules of a user
+               package, in particular those jedi finds only through a listing of the package directory
+               (sub.pyi next to a package / namespace directory sub/, stub package sub/__init__.pyi next
+               to sub.py): created / rewritten / deleted / moved after an earlier Script of the same
+               process resolved something below the package; monotone timestamps; every answer of the
+               prescribed process is compared with the fresh empty-cache process
 For every Script (= one model Query) three observations are taken:
   observed   the process the history prescribes (long-lived process 0, or a process that was
              just restarted and shares the pickle directory)
@@ -634,6 +640,9 @@ class StubGen:
                 self.put((S_P + (s,), S_INNER, PY))
         elif kind == 'ns':
             self.put((S_P + (s,), S_INNER, PY))
+        elif kind == 'moddir':        # module zqn5.py next to a plain directory zqn5/ (the module wins)
+            self.put(self.k_mod(s, PY))
+            self.put((S_P + (s,), S_INNER, PY))
 
     # -- steps
     def query(self, pid, variant, subs):
@@ -699,6 +708,7 @@ STUB_DIRECTED = [
     ('pkg', 'mod', 'same'), ('pkg', 'mod', 'sibling'),          # sub.pyi next to the package directory sub/
     ('ns', 'mod', 'same'), ('ns', 'mod', 'missing'),            # sub.pyi next to the namespace directory sub/
     ('mod', 'init', 'same'), ('mod', 'init', 'sibling'),        # stub package sub/__init__.pyi next to sub.py
+    ('moddir', 'init', 'same'),                                 # ... the directory sub/ was there before (only sub/'s mtime moves)
     ('mod', 'mod', 'same'),                                     # the ordinary pair
     ('pkg', 'init', 'same'),                                    # sub/__init__.py + sub/__init__.pyi
     ('ns', 'init', 'sibling'),                                  # namespace directory + sub/__init__.pyi
@@ -737,7 +747,7 @@ def gen_stub_directed(idx, seed):
     g.query(0, 'abs', (s, ctl))
     g.query(0, 'rel', (s, ctl))
     g.begin(); g.put(here)                    # 4 back again, python side rewritten in the same step
-    if py_kind == 'mod':
+    if py_kind in ('mod', 'moddir'):
         g.put(g.k_mod(s, PY))
     elif py_kind == 'pkg':
         g.put(g.k_init(s, PY))
@@ -755,7 +765,7 @@ def gen_stub_directed(idx, seed):
 def gen_stub_random(seed, nsteps):
     rng = random.Random(seed)
     g = StubGen(rng)
-    g.project({s: rng.choice(('mod', 'pkg', 'ns', 'none', 'pkg', 'ns')) for s in S_SUBS}, regular=rng.random() < 0.9)
+    g.project({s: rng.choice(('mod', 'pkg', 'ns', 'none', 'pkg', 'ns', 'moddir')) for s in S_SUBS}, regular=rng.random() < 0.9)
     if rng.random() < 0.4:
         g.random_mutation()
     g.query(0, rng.choice(('abs', 'abs', 'sibling', 'missing')), S_SUBS)
@@ -1517,6 +1527,8 @@ def run(ctx):
         'timestamps: model time t = mtime 1e9+t s set with os.utime on every file, directory and freshly written pickle',
         'parso\'s in-memory cache eviction (>= 600 entries) and 30-day pickle cleanup are out of reach of <= 8 module projects',
         'jedi replaces its cached default environment (and helper) after 10 minutes: histories that take longer are dropped and counted',
+        'hist-stub has no model side (C09_DiskCache knows one directory level and the direct stub probes only): the fresh '
+        'empty-cache process is the only judge there; its histories are strictly monotone in time by construction',
     ]
     only_stub = os.environ.get('C09_ONLY') == 'stub'      # debugging aid: the oracle-only stream alone
     if only_stub:
